@@ -114,18 +114,28 @@ def public_entry_points(ctx, rule, pairs):
             raise AnalysisError(f"periodictable.{name} is not a function of the package __init__ nor the module function")
         site = fsite(ctx, f"__init__.{name}")
         tq = ctx.src.func(target).qual
-        tnode = ctx.src.func(tq).node
-        params = [a.arg for a in tnode.args.posonlyargs + tnode.args.args]
         I = Interp(ctx.src)
+        # the module function as the module binds it (a decorated function is what its decorator returned: its call signature
+        # is that of the returned function, not of the text under the decorator)
+        from ptstat.symval import Closure as _Closure, Builtin as _Builtin
+        tmod, tname = target.split(".", 1)
+        eff = I.global_name(tmod, tname)
+        tnode = eff.node if isinstance(eff, _Closure) and hasattr(eff.node, "args") else ctx.src.func(tq).node
+        params = [a.arg for a in tnode.args.posonlyargs + tnode.args.args]
         calls = []
 
-        def recorder(I_, args, kw, _calls=calls, _tq=tq, _vararg=tnode.args.vararg is not None, _np=len(params)):
-            b_ = I_.bound(_tq, list(args), dict(kw))
+        def bind(args, kw, _params=params, _vararg=tnode.args.vararg is not None):
+            b_ = dict(zip(_params, args))
+            b_.update(kw)
             if _vararg:
-                b_["*"] = tuple(args[_np:])
-            _calls.append(b_)
-            return I_.new_obj(f"result{len(_calls)}")
-        I.stubs[tq] = recorder
+                b_["*"] = tuple(args[len(_params):])
+            return b_
+
+        def recorder(*args, _calls=calls, **kw):
+            _calls.append(bind(list(args), dict(kw)))
+            return I.new_obj(f"result{len(_calls)}")
+        I.module_cache[(tmod, tname)] = _Builtin(target, recorder)
+        I.stubs[tq] = lambda I_, args, kw: recorder(*args, **kw)        # (reached by its qualified name as well)
         wrapper = I.global_name("__init__", name)
         vals = {p_: _sp.Symbol(f"arg_{p_}") for p_ in params}
         forms = [([vals[p_] for p_ in params[:k]], {}) for k in range(1, len(params) + 1)]
@@ -147,9 +157,7 @@ def public_entry_points(ctx, rule, pairs):
             raise AnalysisError(f"{target} has no parameters to forward")
         bad = None
         for args, kw in forms:
-            want = I.bound(tq, list(args), dict(kw))
-            if tnode.args.vararg is not None:
-                want["*"] = tuple(args[len(params):])
+            want = bind(list(args), dict(kw))
             for attempt in (1, 2):
                 n0 = len(calls)
                 try:
